@@ -17,6 +17,7 @@ import (
 	"sync"
 	"testing"
 	"time"
+	"verif/harness/internal/watchdog"
 
 	ebu "github.com/jilio/ebu"
 
@@ -53,8 +54,21 @@ func TestC02Stress(t *testing.T) {
 	n := run.Scale(1500, 25000)
 	procs := []int{1, 2, 4, 16}
 	defer runtime.GOMAXPROCS(runtime.GOMAXPROCS(0))
+	var cur string
+	dog := watchdog.Start(20*time.Second, func(v watchdog.Verdict) {
+		if !v.Deadlock {
+			run.Count("watchdog_slow_windows", 1)
+			return
+		}
+		run.Violation("stress:hang", "the workload / the quiescent probe stopped making progress with goroutines parked below ebu frames: "+cur, map[string]any{"case": cur, "dump": v.Dump[:min(len(v.Dump), 20000)]})
+		run.Finish()
+		watchdog.Exit()
+	})
+	defer dog.Stop()
 	for i := 0; i < n; i++ {
 		rng := run.Rand(uint64(i))
+		cur = fmt.Sprintf("history %d", i)
+		dog.Tick()
 		runtime.GOMAXPROCS(procs[i%len(procs)])
 		w, plans, nT := conc.StressHistory(rng, all, true)
 		G := len(plans)
